@@ -176,7 +176,11 @@ package fiber
 
 // Port(): remote port of a TCP connection (the documented listener networks are tcp/tcp4/tcp6). For any
 // other net.Addr the function panics by design: that explicit panic is excluded, nothing else is.
+// [C10] the port is read from the connection's peer address only (no header is consulted).
 //@ func (*DefaultCtx).Port panics
+//@   props C07 C10
+//@   pure
+//@   ensures [C10] port-of-the-connection: result == fmtInt(as(remoteAddr(c.fasthttp, epoch), *net.TCPAddr).Port)
 
 //@ func (*DefaultCtx).Is
 //@   pure
